@@ -410,6 +410,15 @@ def replay_file(path, quiet=False):
     prop = doc['property']
     params = doc.get('params') or None
     eng = importlib.import_module(ENGINES[prop])
+    if doc.get('static'):
+        viol, _ = eng.static_checks(doc.get('seed', 0))
+        hit = [v for v in viol if v[0] == doc['invariant']]
+        if hit:
+            print('VIOLATION property=%s replay=%s' % (prop, path))
+            print('  invariant=%s reproduced\n  detail: %s' % (hit[0][0], hit[0][1][:500]))
+            return 1
+        print('NOT-REPRODUCED property=%s replay=%s' % (prop, path))
+        return 0
     if hasattr(eng, 'prepare_replay'):
         params = eng.prepare_replay(params)
     ok, norm, res = _replay_fails(prop, doc.get('tier', 'quick'), doc['choices'], doc['invariant'],
